@@ -55,10 +55,17 @@ def holdsDropContour (src : List QPt) (obs : List TTPoint) : Bool :=
 def holdsDropGlyph (src : QGlyph) (obs : List (List TTPoint)) : Bool :=
   src.length == obs.length && (src.zip obs).all (fun e => holdsDropContour e.1 e.2)
 
+/-- the option did its job: no on-curve point of the compiled contour is the midpoint of two off-curve neighbours any more -/
+def noImpliableLeft (obs : List TTPoint) : Bool := (contourMask dropTest (ofTT obs)).all (fun b => !b)
+
+/-- a single font's glyph: only impliable points are missing, and none is left -/
+def holdsDropGlyphMax (src : QGlyph) (obs : List (List TTPoint)) : Bool :=
+  holdsDropGlyph src obs && obs.all noImpliableLeft
+
 /-- a glyph that ends up simple: every contour of its resolved source outline, in TrueType convention, is there with only
-    impliable points missing -/
+    impliable points missing, and no impliable point is left -/
 def holdsSimpleDrop (o : Opts) (gs : GlyphSet) (g : Glyph) (obs : List (List TTPoint)) : Bool :=
-  holdsDropGlyph ((renderGlyph gs g).map (fun c => toQPts (ttContour o c))) obs
+  holdsDropGlyphMax ((renderGlyph gs g).map (fun c => toQPts (ttContour o c))) obs
 
 /-! ### joint dropping, observed on the variable font's default glyf entry -/
 
